@@ -60,6 +60,9 @@ type Path struct {
 	wfKnown  string
 	lets     map[string]SV
 	nforks   int
+	loopFrame *frameSet
+	loopBase  string
+	loopBody  map[*ssa.BasicBlock]bool
 }
 
 type loopInfo struct {
@@ -374,7 +377,7 @@ func findLoops(fn *ssa.Function) map[*ssa.BasicBlock]*loopInfo {
 	})
 	for i, h := range heads {
 		loops[h].ord = i + 1
-		loops[h].writes = loopWrites(loops[h])
+		loops[h].writes = true
 	}
 	return loops
 }
@@ -399,7 +402,7 @@ func firstPos(b *ssa.BasicBlock) token.Pos {
 	return best
 }
 
-func loopWrites(li *loopInfo) bool {
+func (x *Exec) loopWrites(li *loopInfo) bool {
 	for b := range li.body {
 		for _, in := range b.Instrs {
 			switch v := in.(type) {
@@ -411,6 +414,11 @@ func loopWrites(li *loopInfo) bool {
 				c := v.Common()
 				if b, ok := c.Value.(*ssa.Builtin); ok {
 					if b.Name() == "len" || b.Name() == "cap" {
+						continue
+					}
+				}
+				if key := x.calleeKey(c); key != "" {
+					if ct := x.cf.ByFunc[key]; ct != nil && ct.Flags["pure"] {
 						continue
 					}
 				}
@@ -495,7 +503,7 @@ func (x *Exec) freshOf(p *Path, t types.Type, hint string) SV {
 			*f = x.fresh(hint)
 			p.declare(*f, "Int")
 		}
-		p.assume(fmt.Sprintf("(and (<= 0 %s) (<= %s %s) (<= 0 %s) (<= 0 %s))", sv.Len, sv.Len, sv.Cap, sv.Off, sv.Arr))
+		p.assume(fmt.Sprintf("(and (<= 0 %s) (<= %s %s) (<= %s MAXINT) (<= 0 %s) (<= 0 %s))", sv.Len, sv.Len, sv.Cap, sv.Cap, sv.Off, sv.Arr))
 		return sv
 	case *types.Map:
 		n := x.fresh(hint)
@@ -552,6 +560,9 @@ func sanitize(s string) string {
 
 func (x *Exec) verifyFunc(fn *ssa.Function, ct *Contract) {
 	fc := &funcCtx{fn: fn, ct: ct, loops: findLoops(fn), params: map[string]SV{}, names: map[string]ssa.Value{}}
+	for _, li := range fc.loops {
+		li.writes = x.loopWrites(li)
+	}
 	x.cur = fc
 	p := &Path{variants: map[int]string{}, freshT: map[string]bool{}, callOrd: map[string]int{}, lets: map[string]SV{}}
 	p.H0 = x.newHeap(p)
@@ -563,8 +574,11 @@ func (x *Exec) verifyFunc(fn *ssa.Function, ct *Contract) {
 	for _, prm := range fn.Params {
 		sv := x.freshOf(p, prm.Type(), sanitize(prm.Name()))
 		if sv.K == KSlice {
-			// a slice parameter denotes allocated storage
-			p.assume(fmt.Sprintf("(< %s (next %s))", sv.Arr, p.H0))
+			// a slice parameter denotes allocated storage; by the re-basing symmetry of the memory
+			// model (no Go code can observe a slice's offset) it starts at index 0 of its array
+			p.assume(fmt.Sprintf("(and (< 0 %s) (< %s (next %s)) (= (select (Kind %s) %s) KNARR))", sv.Arr, sv.Arr, p.H0, p.H0, sv.Arr))
+			p.assume(fmt.Sprintf("(= %s 0)", sv.Off))
+			sv.Off = "0"
 		}
 		if sv.K == KTerm && (sv.S == SRefL || sv.S == SRefO || sv.S == SVal || sv.S == SInt) {
 			// references in parameters point below the watermark
@@ -611,6 +625,53 @@ func (x *Exec) verifyFunc(fn *ssa.Function, ct *Contract) {
 				if _, isParam := v.(*ssa.Parameter); !isParam {
 					fc.names[name] = v
 				}
+			}
+		}
+	}
+	for fl := range ct.Flags {
+		if strings.HasPrefix(fl, "implements=") {
+			ic := x.cf.ByFunc[fl[len("implements="):]]
+			if ic == nil {
+				x.errorf("%s: unknown interface contract %s", ct.Func, fl)
+				return
+			}
+			// the implementation must satisfy the interface-level contract with self := receiver
+			m := *ct
+			m.Flags = map[string]bool{}
+			for k, v := range ct.Flags {
+				m.Flags[k] = v
+			}
+			for k, v := range ic.Flags {
+				m.Flags[k] = v
+			}
+			m.Requires = append(append([]*Clause(nil), ic.Requires...), ct.Requires...)
+			m.Ensures = append(append([]*Clause(nil), ic.Ensures...), ct.Ensures...)
+			m.Lets = append(append([]*Let(nil), ic.Lets...), ct.Lets...)
+			m.PLets = append(append([]*Let(nil), ic.PLets...), ct.PLets...)
+			if m.PanicsIff == nil {
+				m.PanicsIff = ic.PanicsIff
+			}
+			if len(m.Assigns) == 0 {
+				m.Assigns = ic.Assigns
+			}
+			if len(m.Props) == 0 {
+				m.Props = ic.Props
+			}
+			ct = &m
+			fc.ct = ct
+			recv := fn.Params[0]
+			if k := ptrToNamed(recv.Type()); k == "list" || k == "object" {
+				// the receiver is the implementation of some outer value o (o == ego for plain containers)
+				o := x.fresh("outer")
+				p.declare(o, "Int")
+				p.assume(fmt.Sprintf("(= (impl %s) %s)", o, fr.env[recv].T))
+				if k == "list" {
+					fc.params["self"] = term("(VList "+o+")", SVal)
+				} else {
+					fc.params["self"] = term("(VObj "+o+")", SVal)
+				}
+			} else {
+				fc.params["self"] = x.makeInterface(p, recv.Type(), fr.env[recv])
 			}
 		}
 	}
@@ -745,8 +806,14 @@ func frameAxioms(fs *frameSet, Ha, Hb string) []string {
 
 // frameCheck emits the obligation that a write to (kind, id) is permitted by the function's frame.
 func (x *Exec) frameCheck(p *Path, kind, id string, in ssa.Instruction) {
-	fs := &x.cur.frame
-	if fs.all || p.freshT[id] {
+	x.frameCheck1(p, &x.cur.frame, p.H0, "frame/", kind, id, in)
+	if p.loopFrame != nil {
+		x.frameCheck1(p, p.loopFrame, p.loopBase, "frame/loop-", kind, id, in)
+	}
+}
+
+func (x *Exec) frameCheck1(p *Path, fs *frameSet, base, tag, kind, id string, in ssa.Instruction) {
+	if fs.all || (p.freshT[id] && tag == "frame/") {
 		return
 	}
 	var set []string
@@ -759,16 +826,16 @@ func (x *Exec) frameCheck(p *Path, kind, id string, in ssa.Instruction) {
 		set = fs.cells
 	case "arr":
 		for _, l := range fs.lists {
-			set = append(set, fmt.Sprintf("(select (Larr %s) %s)", p.H0, l))
+			set = append(set, fmt.Sprintf("(select (Larr %s) %s)", base, l))
 		}
 		set = append(set, fs.arrs...)
 	case "map":
 		for _, o := range fs.objs {
-			set = append(set, fmt.Sprintf("(select (Omap %s) %s)", p.H0, o))
+			set = append(set, fmt.Sprintf("(select (Omap %s) %s)", base, o))
 		}
 		set = append(set, fs.maps...)
 	}
-	cs := []string{fmt.Sprintf("(>= %s (next %s))", id, p.H0)}
+	cs := []string{fmt.Sprintf("(>= %s (next %s))", id, base)}
 	for _, s := range set {
 		cs = append(cs, fmt.Sprintf("(= %s %s)", id, s))
 	}
@@ -776,7 +843,7 @@ func (x *Exec) frameCheck(p *Path, kind, id string, in ssa.Instruction) {
 	if len(cs) > 1 {
 		goal = "(or " + strings.Join(cs, " ") + ")"
 	}
-	x.oblig(p, "frame/"+kind+"-write", goal, x.cur.ct.Props, x.pos(in))
+	x.oblig(p, tag+kind+"-write", goal, x.cur.ct.Props, x.pos(in))
 }
 
 func (x *Exec) runPaths(p0 *Path) {
@@ -846,6 +913,9 @@ func (x *Exec) jump(p *Path, b *ssa.BasicBlock) bool {
 	for i, ph := range phis {
 		f.env[ph] = vals[i]
 	}
+	if f.isTop && p.loopFrame != nil && !p.loopBody[b] {
+		p.loopFrame = nil
+	}
 	f.prev = from
 	f.blk = b
 	f.pc = len(phis)
@@ -897,6 +967,13 @@ func (x *Exec) loopEdge(p *Path, li *loopInfo, from *ssa.BasicBlock, phis []*ssa
 		if li.writes && p.H != p.wfKnown {
 			x.wfOblig(p, tag+"/"+stage)
 		}
+		if li.writes && stage == "preserved" {
+			base := p.H0
+			if p.loopFrame != nil {
+				base = p.loopBase
+			}
+			x.oblig(p, tag+"/preserved/fresh-containers-own-fresh-storage", freshOwn(base, p.H), x.cur.ct.Props, "")
+		}
 		if stage == "preserved" && ls.Decreases != nil {
 			s, err := env.evalSV(ls.Decreases.E)
 			if err == nil {
@@ -906,27 +983,60 @@ func (x *Exec) loopEdge(p *Path, li *loopInfo, from *ssa.BasicBlock, phis []*ssa
 		}
 	}
 	if !entering {
+		for i, ph := range phis {
+			if cur, ok := f.env[ph]; ok && cur.K == KSlice && cur.Off == "0" && vals[i].Off != "0" {
+				x.oblig(p, fmt.Sprintf("%s/preserved/offset0-%s", tag, sanitize(ph.Comment)), fmt.Sprintf("(= %s 0)", vals[i].Off), x.cur.ct.Props, "")
+			}
+		}
 		check("preserved")
 		x.cur.nexits++
 		return false
+	}
+	{
+		eenv := x.loopVars(x.specEnv(p), phis, vals)
+		for _, lt := range ls.ELets {
+			sv, err := eenv.evalSV(lt.E)
+			if err != nil {
+				x.errorf("%s: %s elet %s: %v", x.cur.ct.Func, tag, lt.Name, err)
+				continue
+			}
+			if sv.K == KTerm {
+				sv = x.define(p, "entry_"+lt.Name, sv)
+			}
+			p.lets[lt.Name] = sv
+		}
 	}
 	check("established")
 	// havoc
 	for i, ph := range phis {
 		nv := x.freshOf(p, ph.Type(), sanitize(ph.Comment)+"_l")
-		_ = i
+		if nv.K == KSlice && vals[i].K == KSlice && vals[i].Off == "0" {
+			// offset-0 slices stay offset-0 (checked on the back edge)
+			p.assume(fmt.Sprintf("(= %s 0)", nv.Off))
+			nv.Off = "0"
+		}
 		f.env[ph] = nv
 		vals[i] = nv
 	}
 	if li.writes {
+		lf, base := &x.cur.frame, p.H0
+		if len(ls.Assigns) > 0 {
+			lf, base = &frameSet{}, p.H
+			aenv := x.loopVars(x.specEnv(p), phis, vals)
+			for _, as := range ls.Assigns {
+				x.addFrame(lf, aenv, as.E)
+			}
+			p.loopFrame, p.loopBase, p.loopBody = lf, base, li.body
+		}
 		hb := x.newHeap(p)
-		for _, ax := range frameAxioms(&x.cur.frame, p.H0, hb) {
+		for _, ax := range frameAxioms(lf, base, hb) {
 			p.assume(ax)
 		}
 		p.assume(fmt.Sprintf("(>= (next %s) (next %s))", hb, p.H))
 		p.assume(fmt.Sprintf("(= (TrLen %s) (TrLen %s))", hb, p.H)) // refined by invariants when callbacks are involved
 		p.H = hb
 		p.assume(fmt.Sprintf("(wf %s)", hb))
+		p.assume(freshOwn(base, hb))
 		p.wfKnown = hb
 		// allocated ids stay allocated
 		for id := range p.freshT {
@@ -1001,6 +1111,14 @@ func (x *Exec) exitNormal(p *Path, results []SV, in ssa.Instruction) {
 			env = env.with(res.At(i).Name(), r)
 		}
 	}
+	for _, lt := range ct.PLets {
+		sv, err := env.evalSV(lt.E)
+		if err != nil {
+			x.errorf("%s: plet %s: %v", ct.Func, lt.Name, err)
+			continue
+		}
+		env = env.with(lt.Name, sv)
+	}
 	x.probe(p, "feasible/return")
 	if ct.PanicsIff != nil {
 		o := *env
@@ -1024,6 +1142,7 @@ func (x *Exec) exitNormal(p *Path, results []SV, in ssa.Instruction) {
 		x.oblig(p, "pure/heap-unchanged", fmt.Sprintf("(= %s %s)", p.H, p.H0), ct.Props, x.pos(in))
 	} else if p.H != p.wfKnown && !ct.Flags["nowf"] {
 		x.wfOblig(p, "exit")
+		x.oblig(p, "exit/fresh-containers-own-fresh-storage", freshOwn(p.H0, p.H), ct.Props, x.pos(in))
 	}
 }
 
@@ -1076,4 +1195,34 @@ func (x *Exec) forkOn(p *Path, cond string) (yes, no *Path) {
 func (x *Exec) guard(p *Path, cond, why string, in ssa.Instruction) {
 	_, bad := x.forkOn(p, cond)
 	x.exitPanic(bad, why, in)
+}
+
+// calleeKey names the contract that a call would use ("" if unknown).
+func (x *Exec) calleeKey(c *ssa.CallCommon) string {
+	if c.IsInvoke() {
+		it := c.Value.Type()
+		switch {
+		case isNamed(it, "field"):
+			return "field." + c.Method.Name()
+		case isNamed(it, "List"):
+			return "(*list)." + c.Method.Name()
+		case isNamed(it, "Object"):
+			return "(*object)." + c.Method.Name()
+		}
+		return ""
+	}
+	if callee := c.StaticCallee(); callee != nil {
+		if callee.Pkg != nil && callee.Pkg.Pkg.Name() == "anytype" {
+			return fnKey(callee)
+		}
+		return externKey(callee)
+	}
+	return ""
+}
+
+// freshOwn: containers allocated after Ha own storage allocated after Ha (ownership discipline, DESIGN 8.1).
+func freshOwn(Ha, Hb string) string {
+	return fmt.Sprintf("(and (forall ((r Int)) (! (=> (and (>= r (next %s)) (= (select (Kind %s) r) KLIST)) (>= (select (Larr %s) r) (next %s))) :pattern ((select (Larr %s) r)))) "+
+		"(forall ((r Int)) (! (=> (and (>= r (next %s)) (= (select (Kind %s) r) KOBJ)) (>= (select (Omap %s) r) (next %s))) :pattern ((select (Omap %s) r)))))",
+		Ha, Hb, Hb, Ha, Hb, Ha, Hb, Hb, Ha, Hb)
 }
